@@ -242,6 +242,47 @@ class C19(Prop):
             s = {a}
             out["set_member"] = b in s
             out["dict_get"] = {a: 1}.get(b) == 1
+            # objects equal to b obtained by other routes than the constructor, from objects that were already hashed:
+            # they must compare equal to b and hash like b
+            bad = []
+
+            def derive(x, like):
+                """like, rebuilt from the (hashed) x by model_copy(update=...), nested models included"""
+                upd = {}
+                for f in type(like).model_fields:
+                    v, w = getattr(like, f), getattr(x, f)
+                    if hasattr(type(v), "model_fields") and type(v) is type(w):
+                        upd[f] = derive(w, v)
+                    else:
+                        upd[f] = v
+                return x.model_copy(update=upd)
+
+            routes = {
+                "model_copy": lambda: derive(a, b),
+                "json": lambda: type(b).model_validate_json(b.model_dump_json()),
+                "dict": lambda: type(b).model_validate(b.model_dump()),
+                "deepcopy": lambda: copy.deepcopy(b),
+            }
+            for name, mk in routes.items():
+                r = guarded(mk)
+                if r[0] != "ok":
+                    continue
+                x = r[1]
+                if x == b and (guarded(hash, x) != hb):
+                    bad.append(name)
+            # the same for a term renamed by model_copy after it was hashed, alone and inside a tag / feature
+            from soundevent import data as _d
+
+            tp = dict(TERM_POOL[rr.randrange(len(TERM_POOL))])
+            t = _d.Term(**tp)
+            hash(t), hash(_d.Tag(term=t, value="v")), hash(_d.Feature(term=t, value=1.0))
+            newname = tp["name"] + "#renamed"
+            t2, fresh = t.model_copy(update={"name": newname}), _d.Term(**{**tp, "name": newname})
+            for name, x, y in [("rename-term", t2, fresh), ("rename-tag", _d.Tag(term=t2, value="v"), _d.Tag(term=fresh, value="v")),
+                               ("rename-feature", _d.Feature(term=t2, value=1.0), _d.Feature(term=fresh, value=1.0))]:
+                if x == y and hash(x) != hash(y):
+                    bad.append(name)
+            out["stale_routes"] = bad
         return out
 
     # ------------------------------------------------------------------ model
@@ -314,6 +355,8 @@ class C19(Prop):
             fail("copy-not-equal", f"{c['cls']}: a deep copy does not compare equal", cls=c["cls"])
         if o["eq"] and not o["hash_eq"]:
             fail("equal-objects-different-hash", f"{c['cls']}: objects compare equal but hash differently (varied field {o['varied']})", cls=c["cls"], varied=o["varied"])
+        if o.get("stale_routes"):
+            fail("equal-objects-different-hash", f"{c['cls']}: an equal object obtained through {o['stale_routes']} hashes differently", cls=c["cls"], varied="route:" + ",".join(o["stale_routes"]))
         if not o["hash_copy_eq"]:
             fail("copy-different-hash", f"{c['cls']}: a deep copy hashes differently or is unhashable", cls=c["cls"])
         if o["eq"] and o.get("hashable") and not (o.get("set_member") and o.get("dict_get")):
